@@ -14,8 +14,8 @@ ASSUMPTIONS = ["float32 inputs, image sides multiples of the stride, coordinates
                "monotonicity margin 1e-3 px (edge length for edges shorter than 1 px, where the implementation's projection clamp is approximate)",
                "'wholly outside' = every visible node outside [0,W]x[0,H]; 'inside' = at least one visible node in [0,W-1]x[0,H-1]"]
 SHARDS = {"quick": 4, "thorough": 16}
-N = {"quick": 1400, "thorough": 240000}
-BUDGET = {"quick": 100, "thorough": 900}
+N = {"quick": 2800, "thorough": 1200000}
+BUDGET = {"quick": 100, "thorough": 600}
 TIMEOUT = {"quick": 600, "thorough": 2400}
 SELF_SHARDED = True
 VARIANTS = ["fn", "fn_flat", "dp", "dp_flat"]
